@@ -254,6 +254,55 @@ func runC07(input string) string {
 	// CopyTo of the generated type the shape maps to, whose string / []byte fields hold vals (string or []byte, as they
 	// are), into a fresh destination or (reuse) the destination of the previous CopyTo of that type; for any other shape
 	// the statement sequence every generated cpy() emits.
+	// what the generated Copy() (the inspector's own buffer) hands out stays with the caller as well: every result of every
+	// Copy of the history keeps the content it had when it was handed out and overlaps no other value, whatever is copied later
+	type copyOut struct {
+		isStr bool
+		s     *string
+		b     *[]byte
+		snap  string
+	}
+	var extras []*copyOut
+	extraS := func(p *string) { extras = append(extras, &copyOut{isStr: true, s: p, snap: strings.Clone(*p)}) }
+	extraB := func(p *[]byte) { extras = append(extras, &copyOut{b: p, snap: string(*p)}) }
+	extrasOK := func() bool {
+		rng := func(e *copyOut) (uintptr, uintptr) {
+			if e.isStr {
+				if len(*e.s) == 0 {
+					return 0, 0
+				}
+				lo := uintptr(unsafe.Pointer(unsafe.StringData(*e.s)))
+				return lo, lo + uintptr(len(*e.s))
+			}
+			if cap(*e.b) == 0 {
+				return 0, 0
+			}
+			lo := uintptr(unsafe.Pointer(unsafe.SliceData(*e.b)))
+			return lo, lo + uintptr(cap(*e.b))
+		}
+		for i, e := range extras {
+			if (e.isStr && *e.s != e.snap) || (!e.isStr && string(*e.b) != e.snap) {
+				return false
+			}
+			l1, h1 := rng(e)
+			for _, o := range extras[i+1:] {
+				l2, h2 := rng(o)
+				if l1 < h1 && l2 < h2 && l1 < h2 && l2 < h1 {
+					return false
+				}
+			}
+			for _, h := range hs {
+				if !h.live {
+					continue
+				}
+				l2, h2 := h.rng()
+				if l1 < h1 && l2 < h2 && l1 < h2 && l2 < h1 {
+					return false
+				}
+			}
+		}
+		return true
+	}
 	copyGenerated := func(shape string, vals []any, reuse bool) {
 		switch shape {
 		case "sb", "sbb":
@@ -271,6 +320,15 @@ func runC07(input string) string {
 				panic(err)
 			}
 			prevObj = dst
+			if c, err := (testobj_ins.TestObjectInspector{}).Copy(&src); err == nil {
+				if cp, ok := c.(*testobj.TestObject); ok {
+					extraS(&cp.Id)
+					extraB(&cp.Name)
+					if shape == "sbb" && cp.Finance != nil && len(cp.Finance.History) > 0 {
+						extraB(&cp.Finance.History[len(cp.Finance.History)-1].Comment)
+					}
+				}
+			}
 			hs = append(hs, &handout{isStr: true, s: &dst.Id, live: true, owner: dst})
 			hs = append(hs, &handout{b: &dst.Name, live: true, owner: dst})
 			if shape == "sbb" {
@@ -290,6 +348,11 @@ func runC07(input string) string {
 				panic(err)
 			}
 			prevHist = dst
+			if c, err := (testobj_ins.TestHistoryInspector{}).Copy(&src); err == nil {
+				if cp, ok := c.(*testobj.TestHistory); ok {
+					extraB(&cp.Comment)
+				}
+			}
 			hs = append(hs, &handout{b: &dst.Comment, live: true, owner: dst})
 		case "bbsb":
 			// testobj.TestObject1: ByteSlice, *ByteSlicePtr, NestedStruct.S, NestedStruct.B
@@ -305,6 +368,16 @@ func runC07(input string) string {
 				panic(err)
 			}
 			prevObj1 = dst
+			if c, err := (testobj_ins.TestObject1Inspector{}).Copy(&src); err == nil {
+				if cp, ok := c.(*testobj.TestObject1); ok {
+					extraB(&cp.ByteSlice)
+					if cp.ByteSlicePtr != nil {
+						extraB(cp.ByteSlicePtr)
+					}
+					extraS(&cp.NestedStruct.S)
+					extraB(&cp.NestedStruct.B)
+				}
+			}
 			hs = append(hs, &handout{b: &dst.ByteSlice, live: true, owner: dst})
 			hs = append(hs, &handout{b: dst.ByteSlicePtr, live: true, owner: dst})
 			hs = append(hs, &handout{isStr: true, s: &dst.NestedStruct.S, live: true, owner: dst})
@@ -679,6 +752,9 @@ func runC07(input string) string {
 					break
 				}
 			}
+		}
+		if !extrasOK() {
+			ovl = "copy-results-damaged"
 		}
 		sb.WriteString(";" + ovl + ";")
 		for i, h := range hs {
